@@ -395,8 +395,16 @@ def cases(draw):
                 # the same task object again, on the same clock (moved if
                 # still pending) or, sometimes, on another one
                 tid, c = draw(st.sampled_from(mine))
-                if c not in refs or draw(st.integers(0, 3)) == 0:
+                # (a task that changes the tempo of its clock stays on that
+                # clock: from another clock's thread the change would have
+                # no defined place in the clock's own timeline)
+                tempo_task = any(o[0] == 'tempo' for o in tasks[str(tid)].get(
+                    'do', ()))
+                if not tempo_task and (
+                        c not in refs or draw(st.integers(0, 3)) == 0):
                     c = draw(st.sampled_from(refs))
+                if c not in refs:
+                    continue
                 ops.append(['sched', c, draw(st.sampled_from(DELTAS)), tid])
             elif k == 10 and nclocks and is_main and not stopped[0]:
                 # the last TempoClock is used by the main thread only, so
